@@ -23,8 +23,8 @@ inductive Step (c : Cfg) : State → Act → State → Prop where
       Step c s .putEnd { s with fpc := .done, queue := s.queue ++ [.endMark] }
   | putExc {s} : s.fpc = .putExc → s.queue.length < c.cap + 1 →
       Step c s .putExc { s with fpc := .done, queue := s.queue ++ [.excMark] }
-  | start {s j rest} : s.pending = j :: rest → s.running.length < c.conc →
-      Step c s .start { s with pending := rest, running := s.running ++ [j], calls := j :: s.calls }
+  | start {s j} : j ∈ s.pending → s.running.length < c.conc →
+      Step c s (.start j) { s with pending := s.pending.erase j, running := s.running ++ [j], calls := j :: s.calls }
   | finish {s j} : j ∈ s.running →
       Step c s (.finish j) { s with running := s.running.erase j, finished := j :: s.finished }
   | getItem {s i rest} : s.cpc = .idle → s.queue = .item i :: rest →
@@ -78,10 +78,7 @@ theorem step_sound (c : Cfg) (s s' : State) (a : Act) (h : step c s a = some s')
     · simp at h
   case putEnd => split at h <;> simp at h; subst h; rename_i hc; exact .putEnd hc.1 hc.2
   case putExc => split at h <;> simp at h; subst h; rename_i hc; exact .putExc hc.1 hc.2
-  case start =>
-    split at h
-    · rename_i j rest hp; split at h <;> simp at h; subst h; rename_i hl; exact .start hp hl
-    · simp at h
+  case start j => split at h <;> simp at h; subst h; rename_i hc; exact .start hc.1 hc.2
   case finish j => split at h <;> simp at h; subst h; rename_i hc; exact .finish hc
   case get =>
     split at h
